@@ -127,6 +127,8 @@ class C04(Prop):
         serde = None
         if sk == "json":
             serde = {"kind": "json"}
+            if rng.random() < 0.4:
+                serde["f_json"] = 0         # a custom serde is free to use flags 0 for an encoded payload
         elif sk == "pickle":
             serde = {"kind": "pickle", "proto": rng.randint(0, 5)}
         elif sk == "compressed":
@@ -306,8 +308,8 @@ class C04(Prop):
             return data == want and flags == 0
         if sk == "json":
             if isinstance(v, str):
-                return data == v.encode(enc) and flags == 1
-            return flags == 2 and json.loads(data) == json.loads(json.dumps(v))
+                return data == v.encode(enc) and flags == serde.get("f_str", 1)
+            return flags == serde.get("f_json", 2) and json.loads(data) == json.loads(json.dumps(v))
         if flags & 8:
             if sk != "compressed":
                 return False
